@@ -160,6 +160,7 @@ struct slice
 channel_read_map(struct channel* self, struct channel_reader* reader)
 {
     size_t nbytes = 0;
+    int hopped = 0;
     lock_acquire(&self->lock);
 
     reader_initialize(self, reader);
@@ -198,6 +199,8 @@ channel_read_map(struct channel* self, struct channel_reader* reader)
         out = 0;
         *pos = 0;
         *cycle = self->cycle;
+        // Moving the bookmark may free the space a writer is waiting for.
+        hopped = 1;
         if (self->head > 0) {
             // The writer's lap already holds committed data: map it instead
             // of reporting an empty (i.e. drained) channel.
@@ -213,6 +216,8 @@ channel_read_map(struct channel* self, struct channel_reader* reader)
 
 Finalize:
     lock_release(&self->lock);
+    if (hopped)
+        condition_variable_notify_all(&self->notify_space_available);
     return (struct slice){ .beg = out, .end = out + nbytes };
 Overflow:
     reader->status = Channel_Error;
